@@ -45,7 +45,7 @@ def judge_trace(trace):
     return steps, done
 
 
-def run_profile(ctx, prop, profile, nseq, nops, size, kinds=None, seed_off=0, shrink=True, accept=None):
+def run_profile(ctx, prop, profile, nseq, nops, size, kinds=None, seed_off=0, shrink=True, accept=None, survive_only=False):
     """returns (failures, stats). accept(step, kind, detail) -> True to ignore a failing step (never used to hide a
        property's own failures: only failures of *other* relations that another check owns)."""
     kinds = kinds or KINDS[prop]
@@ -60,7 +60,12 @@ def run_profile(ctx, prop, profile, nseq, nops, size, kinds=None, seed_off=0, sh
         stats['sequences'] += 1
         for k, v in (r.get('hist') or {}).items():
             stats['hist'][k] = stats['hist'].get(k, 0) + v
-        steps, done = judge_trace(r['trace'])
+        steps, done = vlib.run_drv(r['trace'], noabs=True) if survive_only else judge_trace(r['trace'])
+        if survive_only:
+            # only the question whether the server survived (panic / hang / livelock) is asked
+            for s_ in steps:
+                if not s_['panic']:
+                    s_.update(reply=1, nabs=0, nwf=0, alloc=1, trace=1)
         stats['steps'] += len(steps)
         hdr, ops = vlib.read_ops(r['ops'])
         for s in steps:
